@@ -470,6 +470,38 @@ pub(crate) fn fractional_time_to_span(
         _ => unreachable!("unsupported unit: {unit:?}"),
     };
 
+    // The units at or below `unit` can only be non-zero at this point when a
+    // bigger unit exceeded its limit and was spilled into them (see above).
+    // Take that back out of the span and balance it together with the value
+    // given. Otherwise, what we write below would replace it.
+    if unit >= Unit::Hour {
+        nanos +=
+            t::NoUnits128::rfrom(span.get_hours_ranged()) * t::NANOS_PER_HOUR;
+        span = span.hours_ranged(t::SpanHours::N::<0>());
+    }
+    if unit >= Unit::Minute {
+        nanos += t::NoUnits128::rfrom(span.get_minutes_ranged())
+            * t::NANOS_PER_MINUTE;
+        span = span.minutes_ranged(t::SpanMinutes::N::<0>());
+    }
+    if unit >= Unit::Second {
+        nanos += t::NoUnits128::rfrom(span.get_seconds_ranged())
+            * t::NANOS_PER_SECOND;
+        span = span.seconds_ranged(t::SpanSeconds::N::<0>());
+    }
+    if unit >= Unit::Millisecond {
+        nanos += t::NoUnits128::rfrom(span.get_milliseconds_ranged())
+            * t::NANOS_PER_MILLI;
+        span = span.milliseconds_ranged(t::SpanMilliseconds::N::<0>());
+    }
+    if unit >= Unit::Microsecond {
+        nanos += t::NoUnits128::rfrom(span.get_microseconds_ranged())
+            * t::NANOS_PER_MICRO;
+        span = span.microseconds_ranged(t::SpanMicroseconds::N::<0>());
+    }
+    nanos += t::NoUnits128::rfrom(span.get_nanoseconds_ranged());
+    span = span.nanoseconds_ranged(t::SpanNanoseconds::N::<0>());
+
     if unit >= Unit::Hour && nanos > C(0) {
         let mut hours = nanos / t::NANOS_PER_HOUR;
         nanos %= t::NANOS_PER_HOUR;
